@@ -151,3 +151,42 @@ def check_dyne(I):
 def replay_dyne(obligation, I):
     from native.common import run_replay
     run_replay(obligation, I, check_dyne, [dict(measured=m, seed=sd) for m in (0, 1) for sd in range(4)])
+
+
+def check_prepare(I):
+    """Gaussian(V, r, decomp=False) on an ordered list of modes of a 4-mode register: bosonic simulator against the Gaussian one"""
+    import itertools
+    import strawberryfields as sf
+    from strawberryfields import ops
+    lists = [list(c) for k in (1, 2, 3) for c in itertools.permutations(range(4), k)]
+    modes = lists[int(I.get("modes", 0)) % len(lists)]
+    N = len(modes)
+    rng = np.random.RandomState(5)
+    A = rng.randn(2 * N, 2 * N)
+    from thewalrus.random import random_symplectic
+    S = random_symplectic(N)
+    V = S @ np.diag(np.tile(1.0 + 0.3 * np.arange(N), 2)) @ S.T
+    r = 0.3 * np.arange(1, 2 * N + 1) * (-1) ** np.arange(2 * N)
+    res = {}
+    for backend in ("gaussian", "bosonic"):
+        prog = sf.Program(4)
+        with prog.context as q:
+            for k in range(4):
+                ops.Sgate(0.1 * (k + 1)) | q[k]
+            ops.Gaussian(V, r=r, decomp=False) | tuple(q[m] for m in modes)
+        st = sf.Engine(backend).run(prog).state
+        res[backend] = (np.array([st.quad_expectation(m, ph)[0] for m in range(4) for ph in (0, np.pi / 2)]),
+                        np.array([st.quad_expectation(m, ph)[1] for m in range(4) for ph in (0, 0.7, np.pi / 2)]))
+    want = np.zeros(8)
+    for i, m in enumerate(modes):
+        want[2 * m], want[2 * m + 1] = r[i], r[i + N]
+    if not np.allclose(res["bosonic"][0], want, atol=1e-8):
+        return f"bosonic Gaussian(V, r, decomp=False) | modes {modes}: (x, p) means by mode {np.round(res['bosonic'][0], 3).tolist()}; subsystem i belongs in the i-th listed mode: {np.round(want, 3).tolist()}"
+    if not np.allclose(res["bosonic"][1], res["gaussian"][1], atol=1e-8):
+        return f"bosonic Gaussian(V, r, decomp=False) | modes {modes}: quadrature variances differ from the Gaussian simulator"
+    return None
+
+
+def replay_prepare(obligation, I):
+    from native.common import run_replay
+    run_replay(obligation, I, check_prepare, [dict(modes=k) for k in range(0, 40, 3)])
